@@ -555,6 +555,11 @@ pub(crate) mod verif_hooks {
         pub fn verif_node(&self) -> NodeSnap {
             snap_list_node(&self.wait_node, &describe_recv)
         }
+
+        /// `Debug` rendering of the wait node of this future
+        pub fn verif_node_debug(&self) -> alloc::string::String {
+            alloc::format!("{:?}", self.wait_node)
+        }
     }
 
     impl<'a, MutexType, T> ChannelSendFuture<'a, MutexType, T> {
@@ -563,12 +568,22 @@ pub(crate) mod verif_hooks {
         pub fn verif_node(&self, tag_of: &dyn Fn(&T) -> u64) -> NodeSnap {
             snap_list_node(&self.wait_node, &|e| describe_send(e, tag_of))
         }
+
+        /// `Debug` rendering of the wait node of this future
+        pub fn verif_node_debug(&self) -> alloc::string::String {
+            alloc::format!("{:?}", self.wait_node)
+        }
     }
 
     impl<MutexType, T> shared::ChannelReceiveFuture<MutexType, T> {
         /// Describes the wait node of this future
         pub fn verif_node(&self) -> NodeSnap {
             snap_list_node(&self.wait_node, &describe_recv)
+        }
+
+        /// `Debug` rendering of the wait node of this future
+        pub fn verif_node_debug(&self) -> alloc::string::String {
+            alloc::format!("{:?}", self.wait_node)
         }
     }
 
@@ -577,6 +592,11 @@ pub(crate) mod verif_hooks {
         /// value which is still stored inside the future.
         pub fn verif_node(&self, tag_of: &dyn Fn(&T) -> u64) -> NodeSnap {
             snap_list_node(&self.wait_node, &|e| describe_send(e, tag_of))
+        }
+
+        /// `Debug` rendering of the wait node of this future
+        pub fn verif_node_debug(&self) -> alloc::string::String {
+            alloc::format!("{:?}", self.wait_node)
         }
     }
 }
